@@ -128,9 +128,9 @@ section
 key of each lookup table lies exactly the value the owning session's rules denote; nothing under any other key). The
 envelope `EnvOK` is the one of the property: a session that an establishment stores has a SEID and match keys no stored
 session has (unambiguous rule sets; C07 gives the SEID part per association). Session Modifications that carry Update FAR IEs only
-(handover, idle / active transitions, action changes) or Remove PDR / FAR / QER IEs only are inside the theorem, for sessions whose
+(handover, idle / active transitions, action changes), Remove PDR / FAR / QER IEs only, or Create PDR / FAR / QER IEs only are inside the theorem, for sessions whose
 session-QER marking is stable (and, for removals, whose rules have pairwise different keys);
-modifications that create or update PDRs or QERs are outside it (open findings: key-changing Update PDR, QER relabelling)
+modifications that update PDRs or QERs, or mix kinds of IEs, are outside it (open findings: key-changing Update PDR, QER relabelling)
 and stay decided per observed history. -/
 
 theorem image_after_establishment (cfg : Cfg) (w : World) (a lseid : Nat) (r : EstReq) (hI : Inv cfg w)
@@ -159,6 +159,14 @@ theorem image_after_removal (cfg : Cfg) (w : World) (a : Nat) (r : ModReq) (s0 :
     (h : (w.conn a).sessions.find? (·.lseid = r.seid) = some s0)
     (hstable : markSessionQer s0.pdrs s0.qers = (s0.qers, s0.pdrs)) (hnd : SelfNodup cfg s0) :
     Inv cfg (modify cfg w a r).world := modRem_inv cfg w a r s0 hI hr h hstable hnd
+
+/-- a modification that only creates rules (Create PDR / FAR / QER) — accepted, or refused while parsing — upserts the created rules'
+entries over the session's: the tables stay the image of the store, for new rule IDs and keys no other session has (`AddEnv`) -/
+theorem image_after_creation (cfg : Cfg) (w : World) (a : Nat) (r : ModReq) (s0 : Session) (hI : Inv cfg w) (hW : FarWf w) (hr : AddOnly r)
+    (h : (w.conn a).sessions.find? (·.lseid = r.seid) = some s0)
+    (henv : ∀ cp pool1 cf, parsePdrs r.seid (fseidIPOf' r) (w.conn a).apps r.createPdrs w.pool = .ok (cp, pool1) →
+      mapFars cfg r.seid (fseidIPOf' r) false r.createFars = .ok cf → AddEnv cfg w r s0 cp cf) :
+    Inv cfg (modify cfg w a r).world := (modAdd_inv cfg w a r s0 hI hW hr h henv).1
 
 /-- what `image_after_far_update` asks of the stored FARs is an invariant, not an assumption: along every history every stored FAR carries
 the SEID of its session (`parseFAR` writes it, `UpdateFAR` keeps it) -/
@@ -218,6 +226,27 @@ example : ∀ s, newSession exCfg exW1 0 78 exReq2 = some s → ∀ s' ∈ allSe
   exact hall s hmem hl
 
 end
+
+-- a creation on the first session: an uplink PDR under another TEID with its own FAR
+section
+open Agent
+def exAddPdr : PdrIE := { id := 3, prec := 50, srcIface := some 0, fteid := some (false, 3000, 0xC6120101), ueip := some (2, 0x0A3C0001), ohr := some 0, farID := 3, qerIDs := [1] }
+def exAddFar : FarIE := { id := 3, action := 2, fwd := some { dst := some 1 } }
+def exAdd : ModReq := { seid := 77, createPdrs := [exAddPdr], createFars := [exAddFar] }
+def exCP : List Pdr := match parsePdrs 77 0 (exW1.conn 0).apps exAdd.createPdrs exW1.pool with | .ok (cp, _) => cp | .error _ => []
+def exCF : List Far := match mapFars exCfg 77 0 false exAdd.createFars with | .ok cf => cf | .error _ => []
+example : exCP.length = 1 ∧ exCF.length = 1 := by decide +kernel
+-- the created rules satisfy the envelope of `image_after_creation` (one stored session: no other session's keys to avoid)
+example : AddOnly exAdd ∧ ∀ s0 ∈ (exW1.conn 0).sessions,
+    markSessionQer (s0.pdrs ++ exCP) (s0.qers ++ createdQers exAdd) = (s0.qers ++ createdQers exAdd, s0.pdrs ++ exCP) ∧
+    (∀ p ∈ exCP, ∀ q ∈ s0.pdrs, q.pdrID ≠ p.pdrID) ∧ (exCP.map (·.pdrID)).Nodup ∧ (∀ p ∈ exCP, p.chooseTeid = false) := by
+  refine ⟨⟨rfl, rfl, rfl, rfl, rfl, rfl⟩, ?_⟩
+  decide +kernel
+-- and the modification is accepted and adds one pdrLookup entry and one FAR
+example : (modify exCfg exW1 0 exAdd).reply.cause = 1 ∧ (modify exCfg exW1 0 exAdd).world.tables.pdr.length = 3 ∧
+    (modify exCfg exW1 0 exAdd).world.tables.far.length = 3 := by decide +kernel
+end
+
 
 /-! ### ties to the regenerated leaf functions (T1): the model's action encoding and allocation test ARE the Go functions -/
 
